@@ -9,8 +9,8 @@ driver for the route-path model (C15); texts travel as hex of their code points 
   rp.pl   <hex>                         `port_link(text)`                -> `<seg>` | reject
   rp.parse <hex>                        `parse_route_path(text, rec)`    -> `ok <segs> T <trailer>` | reject
   rp.main <hex|~> <simple>              `main()`'s UCMM configuration    -> any | falsy | path <segs> | reject
-  rp.srv  <cfg> <tags> <route> <send> <req>          one request through client + UCMM + device
-  rp.sess <cfg> <tags> (<route> <send> <req>)*       one TCP session
+  rp.srv  <cfg> <routes> <tags> <route> <send> <req>          one request through client + UCMM + device
+  rp.sess <cfg> <routes> <tags> (<route> <send> <req>)*       one TCP session
 -/
 namespace Cpppo.Driver.Route
 open Cpppo.Wire Cpppo.Route
@@ -162,6 +162,10 @@ def parseReq (s : String) : Option Req :=
   | ["M", ops] => do pure (.multiple (← (splitStr ops ';').mapM parseOp))
   | _ => none
 
+/-- routing table keys ("p/l" texts in hex), comma separated; "-" = no table -/
+def parseRoutes (s : String) : Option (List Text) :=
+  if s = "-" then some [] else (splitStr s ',').mapM bytesOfHex
+
 def parseTags (s : String) : Option Tags := (splitStr s '/').mapM natList
 
 def showNats (l : List Nat) : String := if l.isEmpty then "-" else ",".intercalate (l.map toString)
@@ -217,8 +221,9 @@ def handle : List String → Option String
   | ["rp.main", h, simple] => do
     let t ← if h = "~" then some none else (bytesOfHex h).map some
     pure (showConfig (mainConfig t (simple == "1")))
-  | ["rp.srv", cfg, tags, route, send, req] => do
+  | ["rp.srv", cfg, routes, tags, route, send, req] => do
     let cfg ← parseCfg cfg
+    let routes ← parseRoutes routes
     let tags ← parseTags tags
     let carried ← parseCarried route send
     let req ← parseReq req
@@ -228,10 +233,11 @@ def handle : List String → Option String
       match carried with
       | .reject => pure "build-reject"
       | .ok rp cm =>
-        let (d, r) := serve cfg ⟨tags, []⟩ rp cm req
+        let (d, r) := serve cfg routes ⟨tags, []⟩ rp cm req
         pure (showReply r ++ " " ++ showDev d)
-  | "rp.sess" :: cfg :: tags :: frames => do
+  | "rp.sess" :: cfg :: routes :: tags :: frames => do
     let cfg ← parseCfg cfg
+    let routes ← parseRoutes routes
     let tags ← parseTags tags
     let frames ← parseFrames frames
     match cfg with
@@ -240,7 +246,7 @@ def handle : List String → Option String
       match framesOk frames with
       | none => pure "build-reject"
       | some fs =>
-        let (d, rs) := session cfg ⟨tags, []⟩ fs
+        let (d, rs) := session cfg routes ⟨tags, []⟩ fs
         pure (s!"n={rs.length} " ++ " ".intercalate (rs.map fun r => toString r.status ++ "=" ++ showPayload r.payload)
               ++ " " ++ showDev d)
   | _ => none
